@@ -1175,6 +1175,42 @@ def r12r(ctx):
                        f"attribute and the caller's `{k.arg}` is dropped — the object does not expose what it was built with")
 
 
+def r12s(ctx):
+    """from_tag wraps a node in the class registered for its tag, whoever is asked.
+
+    `Element.from_tag` is the one door from lxml nodes to wrappers: parsing, `children`, `get_elements`, `xpath` and `clone` all end there, and
+    it looks the node's tag up in `_class_registry`.  Called on a subclass (`Paragraph.from_tag(node)`, or `self.from_tag(copy)` at the end of
+    clone) it must still answer with the registered class: after a retag the wrapper's own class is the old one.  A shortcut "the class is
+    already known" gives a clone another class than the re-parsed element has.  Rule: every wrapper that from_tag returns is built by a class
+    taken from the registry (a local bound from `_class_registry.get(…)` / `_class_registry[…]`), never directly by `cls`.
+    """
+    repo = ctx.repo
+    ctx.rule("R12s", "Element.from_tag builds every wrapper with the class looked up in the registry", floor=1)
+    n = 0
+    for q in ("Element.from_tag", "Element.from_tag_for_clone"):
+        f = repo.find_func(q)
+        if f is None:
+            continue
+        # the registry, or a module-level helper that reads it
+        readers = {"_class_registry"} | {g.name for g in repo.all_funcs() if g.cls is None and g.file == f.file
+                                         and any(isinstance(x, ast.Name) and x.id == "_class_registry" for x in ast.walk(g.node))}
+        from_reg = {a.targets[0].id for a in walk_no_nested(f.node) if isinstance(a, ast.Assign) and len(a.targets) == 1 and isinstance(a.targets[0], ast.Name)
+                    and any(isinstance(x, ast.Name) and x.id in readers for x in ast.walk(a.value))}
+        for r in [x for x in walk_no_nested(f.node) if isinstance(x, ast.Return) and isinstance(x.value, ast.Call)]:
+            c = r.value
+            if not (any(k.arg == "tag_or_elem" for k in c.keywords) or c.args):
+                continue
+            n += 1
+            ok = isinstance(c.func, ast.Name) and c.func.id in from_reg
+            ctx.instance("R12s", f"{f.file}:{f.ident}", f"{norm(r, 40)}: class from the registry", ok=ok, nontrivial=True, line=r.lineno)
+            if not ok:
+                ctx.report("R12s", f, r, norm(r, 50),
+                           f"{f.ident} returns `{norm(c, 40)}`, a wrapper built without looking the node's tag up in the registry: called on a subclass — as `clone` does with "
+                           f"`self.from_tag(copy)` — it answers with the caller's class, so a retagged element clones into another class than the one it parses back as")
+    if n < 1:
+        raise AnalysisError("R12s: no wrapper-returning statement found in Element.from_tag")
+
+
 def run(ctx):
     reg = build_registry(ctx.repo)
     ctx.extra["registry"] = {"modules_in_import_order": len(reg.order), "registrations": len(reg.regs), "tags": len(reg.tag2cls),
@@ -1196,6 +1232,7 @@ def run(ctx):
     r12p(ctx, reg)
     r12q(ctx, reg)
     r12r(ctx)
+    r12s(ctx)
     # `clone` is one of the access paths of the property: a clone must be a detached copy of its own (rules shared with C10)
     from .c10 import r10c, r10g
     r10c(ctx)
@@ -1213,6 +1250,8 @@ def run(ctx):
 from ..selftest import Seed, unparse_seed  # noqa: E402
 
 SEEDS = [
+    Seed("from_tag skips the registry when called on a specialised class", "fault", "src/odfdo/element.py",
+         "        klass = _class_registry.get(elem.tag, cls)\n        return klass(tag_or_elem=elem)", "        if cls._tag and not isinstance(tag_or_elem, str):\n            return cls(tag_or_elem=elem)\n        klass = _class_registry.get(elem.tag, cls)\n        return klass(tag_or_elem=elem)", "R12s"),
     Seed("Frame.text_frame feeds presentation_style from presentation_class", "fault", "src/odfdo/frame.py",
          "            presentation_style=presentation_style,\n            **kwargs,\n        )\n        frame.set_text_box(", "            presentation_style=presentation_class,\n            **kwargs,\n        )\n        frame.set_text_box(", "R12r"),
     Seed("creator read with an absolute XPath again", "fault", "src/odfdo/mixin_dc_creator.py",
